@@ -274,6 +274,11 @@ func (p *parser) optionalSemicolon() {
 
 func (p *parser) semicolon() {
 	if p.token != token.RIGHT_PARENTHESIS && p.token != token.RIGHT_BRACE {
+		if p.token == token.SEMICOLON {
+			// An explicit semicolon ends the statement even on the next line.
+			p.next()
+			return
+		}
 		if p.implicitSemicolon {
 			p.implicitSemicolon = false
 			return
